@@ -3,12 +3,13 @@ package main
 import (
 	"go/ast"
 	"go/token"
+	"go/types"
 	"strings"
 )
 
 func init() {
 	register(&Property{ID: "C05", Run: runC05,
-		Explain: "Announcement bookkeeping decided for every operation history as pairing/guard/ownership rules: (R05.1) announce and rt.Join/rt.Leave are called only by the four subscription/relay handlers, announce(t,true) always together with rt.Join and after disc.Advertise, announce(t,false) with rt.Leave and disc.StopAdvertise; (R05.2) the subscribe-side pair happens exactly when no subscription and no relay existed (and the topic is not fanout-only), the unsubscribe-side pair exactly when the last one went away — both directions: dominance of the pair by the guard, and every path not refuting the guard performs the pair; the un-announcement additionally requires that a subscription set existed (a handle cancelled twice does not announce or Leave again); myRelays is incremented only by handleAddRelay, decremented only by handleRemoveRelay under a non-zero test and deleted when it reaches zero; mySubs entries are created/deleted only by the subscription handlers; (R05.3) a cancelled subscription's error is stored before its channel is closed, Next reports it on the closed edge, close is once-only; (R05.4) the first message on a new outbound stream is the hello packet (through the router hook) and the writer sends it before popping the queue; getHelloPacket lists every subscription (except fanout-only topics) and every relay; (R05.5) a retried announcement is re-sent only if the current interest state still equals the announced one (path table of the retry thunk), through the event loop, and an announcement whose queue push failed — in announce and in the retry itself — is always scheduled for another retry for the same peer, topic and flag; (R05.6) remote interest bookkeeping (inner maps of p.topics) is written only by handleIncomingRPC and clearPeerFromTopicsState, is processed before and independently of the router's AcceptFrom verdict, every removal of a peer's queue is paired with clearPeerFromTopicsState and rt.OnClosedOutboundStream, and a closed inbound stream always clears the peer's topic state. NOT decided: convergence once the network is quiet, ordering of hello vs queued announcements across goroutines.",
+		Explain: "Announcement bookkeeping decided for every operation history as pairing/guard/ownership rules: (R05.1) announce and rt.Join/rt.Leave are called only by the four subscription/relay handlers, announce(t,true) always together with rt.Join and after disc.Advertise, announce(t,false) with rt.Leave and disc.StopAdvertise; (R05.2) the subscribe-side pair happens exactly when no subscription and no relay existed (and the topic is not fanout-only), the unsubscribe-side pair exactly when the last one went away — both directions: dominance of the pair by the guard, and every path not refuting the guard performs the pair; the un-announcement additionally requires that a subscription set existed (a handle cancelled twice does not announce or Leave again); myRelays is incremented only by handleAddRelay, decremented only by handleRemoveRelay under a non-zero test and deleted when it reaches zero; mySubs entries are created/deleted only by the subscription handlers; (R05.3) a cancelled subscription's error is stored before its channel is closed, Next reports it on the closed edge, close is once-only; (R05.4) the first message on a new outbound stream is the hello packet (through the router hook) and the writer sends it before popping the queue; getHelloPacket lists every subscription (except fanout-only topics) and every relay; (R05.5) a retried announcement is re-sent only if the current interest state still equals the announced one (path table of the retry thunk), through the event loop, and an announcement whose queue push failed — in announce and in the retry itself — is always scheduled for another retry for the same peer, topic and flag; (R05.6) remote interest bookkeeping (inner maps of p.topics) is written only by handleIncomingRPC and clearPeerFromTopicsState, is processed before and independently of the router's AcceptFrom verdict, every removal of a peer's queue is paired with clearPeerFromTopicsState and rt.OnClosedOutboundStream, and a closed inbound stream always clears the peer's topic state. (R05.8) a peer whose writer is respawned keeps its announced topics, and every dead peer is respawned or forgotten; (R05.9) every function that decides from p.mySubs whether a subscription is announced has a branch depending on Topic.fanoutOnly in front of the announcement; (R11.7, shared) the hello packet is split or size-tested before it is written (known finding F37). NOT decided: convergence once the network is quiet, ordering of hello vs queued announcements across goroutines.",
 		Assume:  []string{"the event loop owns mySubs/myRelays/topics (single-threaded)"},
 		Mutants: []Mutant{
 			{Name: "addsub-announce-without-join", File: "pubsub.go", Old: "\t\t\tp.announce(sub.topic, true)\n\t\t\tp.rt.Join(sub.topic)\n", New: "\t\t\tp.announce(sub.topic, true)\n\t\t\tif len(p.peers) > 0 {\n\t\t\t\tp.rt.Join(sub.topic)\n\t\t\t}\n", Expect: "R05.1"},
@@ -24,7 +25,11 @@ func init() {
 			{Name: "retry-unsub-always", File: "pubsub.go", Old: "\t\tif (ok && sub) || (!ok && !sub) {\n\t\t\tp.doAnnounceRetry(pid, topic, sub)\n\t\t}", New: "\t\tif ok && !sub {\n\t\t\treturn\n\t\t}\n\t\tp.doAnnounceRetry(pid, topic, sub)", Expect: "R05.5"},
 			{Name: "acceptfrom-before-subscriptions", File: "pubsub.go", Old: "\tp.tracer.RecvRPC(rpc)\n\n\tsubs := rpc.GetSubscriptions()", New: "\tp.tracer.RecvRPC(rpc)\n\n\tif p.rt.AcceptFrom(rpc.from) == AcceptNone {\n\t\treturn\n\t}\n\tsubs := rpc.GetSubscriptions()", Expect: "R05.6"},
 			{Name: "closed-incoming-keeps-topics", File: "pubsub.go", Old: "\tp.clearPeerFromTopicsState(pid)\n\tp.rt.OnClosedIncomingStream(pid, proto)", New: "\tif _, ok := p.peers[pid]; !ok {\n\t\tp.clearPeerFromTopicsState(pid)\n\t}\n\tp.rt.OnClosedIncomingStream(pid, proto)", Expect: "R05.6"},
-			{Name: "deadpeer-keeps-topics", File: "pubsub.go", Old: "\t\tq.Close()\n\t\tdelete(p.peers, pid)\n\n\t\tp.clearPeerFromTopicsState(pid)\n\t\tp.rt.OnClosedOutboundStream(pid)\n", New: "\t\tq.Close()\n\t\tdelete(p.peers, pid)\n\n\t\tp.rt.OnClosedOutboundStream(pid)\n", Expect: "R05.6"},
+			{Name: "deadpeer-keeps-topics", File: "pubsub.go", Old: "\t\t\tcontinue\n\t\t}\n\n\t\tp.clearPeerFromTopicsState(pid)\n\t}\n}\n", New: "\t\t\tcontinue\n\t\t}\n\t}\n}\n", Expect: "R05.6"},
+			{Name: "deadpeer-gives-up-keeping-topics", File: "pubsub.go", Old: "\t\t\t\tp.logger.Debug(\"error updating backoff\", \"err\", err, \"peer\", pid)\n\t\t\t\tp.clearPeerFromTopicsState(pid)\n\t\t\t\tcontinue\n", New: "\t\t\t\tp.logger.Debug(\"error updating backoff\", \"err\", err, \"peer\", pid)\n\t\t\t\tcontinue\n", Expect: "R05.6"},
+			{Name: "deadpeer-respawn-forgets-topics", File: "pubsub.go", Old: "\t\tp.rt.OnClosedOutboundStream(pid)\n\n\t\tif p.host.Network().Connectedness(pid) == network.Connected {\n\t\t\tbackoffDelay, err := p.deadPeerBackoff.updateAndGet(pid)", New: "\t\tp.rt.OnClosedOutboundStream(pid)\n\t\tp.clearPeerFromTopicsState(pid)\n\n\t\tif p.host.Network().Connectedness(pid) == network.Connected {\n\t\t\tbackoffDelay, err := p.deadPeerBackoff.updateAndGet(pid)", Expect: "R05.8"},
+			{Name: "retry-ignores-fanout-only", File: "pubsub.go", Old: "\t\tok := (okSubs && !fanoutOnly) || okRelays\n", New: "\t\t_ = fanoutOnly\n\t\tok := okSubs || okRelays\n", Expect: "R05.9"},
+			{Name: "retry-never-reads-fanout-only", File: "pubsub.go", Old: "\t\tt := p.myTopics[topic]\n\t\tfanoutOnly := t != nil && t.fanoutOnly\n\n\t\tok := (okSubs && !fanoutOnly) || okRelays\n", New: "\t\tok := okSubs || okRelays\n", Expect: "R05.9"},
 		}})
 }
 
@@ -448,9 +453,25 @@ func runC05(c *RuleCtx) {
 			look := func(field string) VPred {
 				return func(v *V) bool { return v != nil && v.Kind == "lookupok" && v.Args[0].IsField(field) }
 			}
+			// subscriptions count unless the topic is fanout-only (R05.9 demands that this is consulted): the
+			// subscription operand is the lookup itself or its conjunction with a negated fanout-only test
+			subsHeld := func(v *V) bool {
+				if look("PubSub.mySubs")(v) {
+					return true
+				}
+				if v.Kind == "op" && v.Name == "&&" {
+					for i := 0; i < 2; i++ {
+						o := v.Args[1-i]
+						if look("PubSub.mySubs")(v.Args[i]) && o.Kind == "unop" && o.Name == "!" && o.Has(func(x *V) bool { return x.IsField("Topic.fanoutOnly") }) {
+							return true
+						}
+					}
+				}
+				return false
+			}
 			held := AtomBool("interest still held", func(v *V) bool {
 				if v.Kind == "op" && v.Name == "||" {
-					return (look("PubSub.mySubs")(v.Args[0]) && look("PubSub.myRelays")(v.Args[1])) || (look("PubSub.myRelays")(v.Args[0]) && look("PubSub.mySubs")(v.Args[1]))
+					return (subsHeld(v.Args[0]) && look("PubSub.myRelays")(v.Args[1])) || (look("PubSub.myRelays")(v.Args[0]) && subsHeld(v.Args[1]))
 				}
 				return false
 			})
@@ -603,7 +624,22 @@ func runC05(c *RuleCtx) {
 				until = p.iterationUntil(f, s.Node)
 			}
 			for _, req := range []string{"(*PubSub).clearPeerFromTopicsState", "PubSubRouter.OnClosedOutboundStream"} {
-				ok, _ := g.MustPass(sp.After(), PassOpts{Until: until}, p.callPred(f, req))
+				pred := p.callPred(f, req)
+				if req == "(*PubSub).clearPeerFromTopicsState" {
+					// a peer whose writer is respawned in the same step is not gone: its announced topics stay (R05.8)
+					inner := pred
+					pred = func(n ast.Node) bool {
+						if inner(n) {
+							return true
+						}
+						if gs, ok := n.(*ast.GoStmt); ok {
+							name := p.CalleeName(f.Info(), gs.Call)
+							return name == "(*PubSub).handleNewPeerWithBackoff" || name == "(*PubSub).handleNewPeer"
+						}
+						return false
+					}
+				}
+				ok, _ := g.MustPass(sp.After(), PassOpts{Until: until}, pred)
 				c.Check(ok, "R05.6", f.Name, "queue removal paired with "+shortFn(req), s.Node, "always follows", "a peer's outbound queue is removed without "+shortFn(req))
 			}
 		}
@@ -633,6 +669,9 @@ func runC05(c *RuleCtx) {
 	c.Min["R05.4"] = 6
 	c.Min["R05.5"] = 5
 	c.Min["R05.6"] = 11
+	checkInterestKept(c)
+	// the hello packet carries the whole interest set: if it cannot be delivered the views never converge (shared with C11)
+	checkHelloBounded(c)
 }
 
 func edgeCut(sets ...[]Edge) cutSet {
@@ -655,3 +694,199 @@ func announceableEdges(g *Graph, topicNil, notFanoutOnly Atom) []Edge {
 }
 
 func notNilOrTrue(a Atom) Atom { return a }
+
+// readsFieldDeep: f (or a function literal inside it, or an unexported same-package function it calls,
+// one level) reads the struct field owner.name.
+func readsFieldDeep(p *Prog, f *Func, field string, depth int) bool {
+	found := false
+	ast.Inspect(f.Body, func(x ast.Node) bool {
+		if se, ok := x.(*ast.SelectorExpr); ok && !found {
+			if sel := f.Info().Selections[se]; sel != nil && sel.Kind() == types.FieldVal {
+				if p.R(f).Val(se).IsField(field) {
+					found = true
+				}
+			}
+		}
+		return !found
+	})
+	if found || depth == 0 {
+		return found
+	}
+	for _, cs := range p.FuncCalls(f, true) {
+		if callee := p.Fn(cs.Name); callee != nil && callee != f && callee.Body != nil {
+			if readsFieldDeep(p, callee, field, depth-1) {
+				return true
+			}
+		}
+	}
+	return false
+}
+
+// R05.8 / R05.9: two more clauses of C05 that the audit of the unmodified tree showed to be violated.
+func checkInterestKept(c *RuleCtx) {
+	p := c.P
+	// R05.8: a transient reset of OUR stream to a peer must not make us forget what the peer announced (that
+	// came in over the peer's own stream, and the peer will not say it again). In handleDeadPeers no iteration
+	// both clears the peer's topic state and respawns the writer for it.
+	if f := c.MustFn("R05.8", "(*PubSub).handleDeadPeers"); f != nil {
+		g := p.Graph(f)
+		var respawn []ast.Node
+		inspectNoLit(f.Body, func(x ast.Node) bool {
+			if gs, ok := x.(*ast.GoStmt); ok {
+				name := p.CalleeName(f.Info(), gs.Call)
+				if name == "(*PubSub).handleNewPeerWithBackoff" || name == "(*PubSub).handleNewPeer" {
+					respawn = append(respawn, gs)
+				}
+			}
+			return true
+		})
+		if len(respawn) == 0 {
+			c.Undecided("R05.8", f.Name, "writer respawn", f.Decl, "no `go handleNewPeer…` for a peer that is still connected")
+		}
+		clears := p.Sites(f, false, "(*PubSub).clearPeerFromTopicsState")
+		n := 0
+		for _, rs := range respawn {
+			n++
+			rp, ok := g.Locate(rs)
+			if !ok {
+				c.Undecided("R05.8", f.Name, "writer respawn", rs, "not located")
+				continue
+			}
+			// stay within one iteration: do not follow edges back to the loop head
+			cut := cutSet{}
+			for blk := range p.iterationUntil(f, rs) {
+				for _, b := range g.C.Blocks {
+					for si, s := range b.Succs {
+						if s == blk {
+							cut[Edge{b, si}] = true
+						}
+					}
+				}
+			}
+			bad := ""
+			for _, cs := range clears {
+				cp, ok := g.Locate(cs.Call)
+				if !ok {
+					continue
+				}
+				if g.ReachableFrom(cp.After(), rp, cut, nil) || g.ReachableFrom(rp.After(), cp, cut, nil) {
+					bad = "clearPeerFromTopicsState at " + p.Pos(cs.Call) + " and the respawn at " + p.Pos(rs) + " lie on one path"
+				}
+			}
+			c.Check(bad == "", "R05.8", f.Name, "a respawned peer keeps its announced topics", rs, "no path of an iteration both clears the topic state and respawns the writer", "when only our outbound stream to a still-connected peer dies, its announced interest is thrown away although it arrived over the peer's own, intact stream; the peer does not announce it again, so the node's list of peers in the topic stays wrong: "+bad)
+		}
+		// and a peer that is given up is still forgotten: every path that neither respawns nor skips an unknown peer clears
+		known := AtomLookupOK("queue present in p.peers", isFieldOf("PubSub.peers"), nil)
+		for _, e := range g.AtomEdges(known, true) {
+			cut := cutSet{}
+			ok, _ := g.MustPass(EdgeTarget(e), PassOpts{Cut: cut, Until: p.iterationUntil(f, condNodeOf(e))}, func(nd ast.Node) bool {
+				if p.NodeCalls(f, nd, "(*PubSub).clearPeerFromTopicsState") {
+					return true
+				}
+				for _, rs := range respawn {
+					if nd == rs || contains(nd, rs) {
+						return true
+					}
+				}
+				return false
+			})
+			c.Check(ok, "R05.8", f.Name, "a dead peer is respawned or forgotten", condNodeOf(e), "every path of the iteration respawns the writer or clears the topic state", "a dead peer can be dropped from p.peers without being respawned and without its topic state being cleared")
+		}
+	}
+	// R05.9: every function that decides from p.mySubs whether a subscription is announced consults the
+	// topic's fanout-only mark (subscriptions on a fanout-only topic are never announced): sibling agreement
+	// between the hello packet, the two subscription handlers and the announcement retry.
+	n := 0
+	for _, f := range p.All {
+		if p.IsGenerated(f.Body) || f.Body == nil {
+			continue
+		}
+		// deciders: read p.mySubs and emit/queue an announcement themselves
+		readsSubs := false
+		ast.Inspect(f.Body, func(x ast.Node) bool {
+			if fl, ok := x.(*ast.FuncLit); ok && fl != f.Lit {
+				return false
+			}
+			if se, ok := x.(*ast.SelectorExpr); ok {
+				if p.R(f).Val(se).IsField("PubSub.mySubs") {
+					readsSubs = true
+				}
+			}
+			return true
+		})
+		if !readsSubs {
+			continue
+		}
+		// the relay handlers look at mySubs only to see whether the relay is the first/last interest; a relay
+		// cannot exist on a fanout-only topic (Topic.Relay refuses), so the mark does not concern them
+		writesRelays := false
+		for _, s := range p.StoresTo2(f, "PubSub.myRelays") {
+			_ = s
+			writesRelays = true
+		}
+		if writesRelays {
+			continue
+		}
+		announces := len(p.Sites(f, false, "(*PubSub).announce", "(*PubSub).doAnnounceRetry")) > 0
+		if !announces {
+			// builds subscription options directly (hello packet)
+			ast.Inspect(f.Body, func(x ast.Node) bool {
+				if cl, ok := x.(*ast.CompositeLit); ok {
+					if t := f.Info().TypeOf(cl); t != nil && strings.HasSuffix(t.String(), "pb.RPC_SubOpts") {
+						announces = true
+					}
+				}
+				return true
+			})
+		}
+		if !announces {
+			continue
+		}
+		n++
+		// the mark must take part in the decision: some branch condition whose value depends on Topic.fanoutOnly
+		// (through any locals) decides, by one of its edges, whether an announcing statement is reached
+		ok := false
+		g := p.Graph(f)
+		var sites []ast.Node
+		for _, cs := range p.Sites(f, false, "(*PubSub).announce", "(*PubSub).doAnnounceRetry") {
+			sites = append(sites, cs.Call)
+		}
+		for _, mi := range p.mapInserts(f) {
+			sites = append(sites, mi.Stmt)
+		}
+		for _, blk := range g.C.Blocks {
+			cond := g.condOf[blk]
+			if cond == nil || !blk.Live {
+				continue
+			}
+			cv := p.R(f).Val(cond)
+			dep := cv != nil && cv.Has(func(x *V) bool { return x.IsField("Topic.fanoutOnly") })
+			if !dep {
+				// a helper predicate (one level) that reads the mark
+				for _, cs := range p.CallsIn(f, cond, false) {
+					if callee := p.Fn(cs.Name); callee != nil && callee.Body != nil && readsFieldDeep(p, callee, "Topic.fanoutOnly", 0) {
+						dep = true
+					}
+				}
+			}
+			if !dep {
+				continue
+			}
+			for _, st := range sites {
+				pt, located := g.Locate(st)
+				if !located {
+					continue
+				}
+				if g.Dominated(pt, []Edge{{blk, 0}}) || g.Dominated(pt, []Edge{{blk, 1}}) {
+					ok = true
+				}
+			}
+		}
+		c.Check(ok, "R05.9", f.Name, "announcement decision consults the fanout-only mark", f.DeclNode(), "a branch that depends on Topic.fanoutOnly decides whether the announcement is made", "this function decides from p.mySubs whether a subscription is announced, but no branch that depends on Topic.fanoutOnly stands before the announcement (unlike its siblings): a subscription on a fanout-only topic, which must not be announced, is announced by it")
+	}
+	if n < 4 {
+		c.Undecided("R05.9", "announcement deciders", "inventory", nil, "fewer deciders than known (hello packet, add/remove subscription, announce retry): "+itoa(n))
+	}
+	c.Min["R05.8"] = 2
+	c.Min["R05.9"] = 4
+}
